@@ -6,7 +6,7 @@ import problems
 from common import (NCPU, Machinery, Report, Scratch, nucs_env, read_ndjson, run_tlc, run_workers, run_workers_resilient,
                     validate_shards, warm_jit)
 
-NT, NC = 3, 3
+NT, NC = 3, 4
 
 
 def _exec(histories, env, tmp, tag, batch=40):
@@ -27,13 +27,17 @@ def c15(tier, seed, replay):
         # ---- reference runs: one fresh interpreter per (template, configuration)
         fresh = [{"rid": 1000 * t + c, "ops": [["newproblem", t, 0], ["newsolver", 1, c], ["drain", 1, 0]]}
                  for t in range(1, NT + 1) for c in range(1, NC + 1)]
-        ref_runs = _exec(fresh, envI, tmp, "ref", batch=1)
+        ref_runs = _exec([f for f in fresh if f["rid"] % 1000 != 4], envI, tmp, "ref", batch=1)
         refsols = [[None] * NC for _ in range(NT)]
         for x in ref_runs:
             t, c = divmod(x["rid"], 1000)
             if x["obs"][2]["raised"] or x["obs"][1]["raised"]:
                 raise Machinery(f"reference run failed: {x}")
             refsols[t - 1][c - 1] = {"sols": x["obs"][2]["sols"], "stats": x["obs"][2]["stats"]}
+        for t in range(NT):
+            # configuration 4 = a custom-registered clone of the default variable heuristic (registered after another
+            # heuristic made by the same factory): its reference IS the run of configuration 1
+            refsols[t][3] = refsols[t][0]
         nsols = [[len(refsols[t][c]["sols"]) for c in range(NC)] for t in range(NT)]
         maxops = 5 if tier == "quick" else 6
         (tmp / "ref.json").write_text(json.dumps({"nt": NT, "nc": NC, "maxops": maxops, "nsols": nsols}))
@@ -85,6 +89,7 @@ def c15(tier, seed, replay):
         rep.cov["histories"] = {"generated_by_TLC": len(uniq), "executed_per_mode": len(histories), "max_ops": maxops,
                                 "templates": "queens(5) with shared domains, magic_sequence(4) with repeated variables, "
                                              "a 4-variable model with an aliased variable", "configurations": NC,
+                                "configuration_4": "custom-registered clone of the default variable heuristic, judged against configuration 1",
                                 "fresh_interpreter_runs": 4 * len(fresh)}
         # ---- input quantifier: random problems, 2 interpreted + 2 compiled runs each
         n = 240 if tier == "quick" else 5000
